@@ -24,8 +24,9 @@ def contracts():
 
     def c(fname, **kw):
         kw.setdefault('serves', ('C13',))
-        kw.setdefault('native', False)
+        kw.setdefault('native', None)       # native twin: sets / maps
         x = Contract(C + fname, **kw)
+        x.native_scope = 2
         cs.append(x)
         return x
     SET = TSet(TVal)
